@@ -8,8 +8,12 @@ def sh(cmd, cwd=None, env=None):
     p = subprocess.run(cmd, cwd=cwd, env=env, shell=True, stdout=subprocess.PIPE, stderr=subprocess.STDOUT)
     return p.returncode, p.stdout.decode('utf-8', 'replace')
 
-def one(patch, scan=False):
-    emit, kern, bridge = (('emit_scan_v', 'ScanKernels.v', 'BridgeScan.v') if scan else ('emit_req_v', 'ReqKernels.v', 'BridgeReq.v'))
+MODES = {'req': ('emit_req_v', 'ReqKernels.v', 'BridgeReq.v'), 'scan': ('emit_scan_v', 'ScanKernels.v', 'BridgeScan.v'),
+         'cfg': ('emit_cfgobj_v', 'CfgKernels.v', 'BridgeCfgObj.v')}
+
+
+def one(patch, mode='req'):
+    emit, kern, bridge = MODES[mode]
     wt = tempfile.mkdtemp(prefix='ubx-tb-', dir='/tmp'); os.rmdir(wt)
     gen = tempfile.mkdtemp(prefix='ubx-tbg-', dir='/tmp')
     try:
@@ -44,6 +48,6 @@ def one(patch, scan=False):
         shutil.rmtree(gen, ignore_errors=True)
 
 if __name__ == '__main__':
-    scan = '--scan' in sys.argv
-    for p in [a for a in sys.argv[1:] if a != '--scan']:
-        print(p, '->', one(os.path.abspath(p), scan), flush=True)
+    mode = 'scan' if '--scan' in sys.argv else 'cfg' if '--cfg' in sys.argv else 'req'
+    for p in [a for a in sys.argv[1:] if not a.startswith('--')]:
+        print(p, '->', one(os.path.abspath(p), mode), flush=True)
